@@ -26,8 +26,8 @@ Trace == ndJsonDeserialize("trace.ndjson")
 
 Note(b, x) == IF Len(b) < 100 THEN Append(b, x) ELSE Append(b, [event |-> x.event])
 
-VARIABLES l, bad, judged
-vars == <<l, bad, judged>>
+VARIABLES l, bad, judged, litNoted
+vars == <<l, bad, judged, litNoted>>
 
 BackWhy(what, subj, r) ==
   IF ~r.ok THEN <<what \o ": rejected">>
@@ -65,6 +65,9 @@ PJsonWhy(ev) ==
        IN (IF ~spec.ok THEN <<"specification reading: not a policy document">>
            ELSE IF ~SameAst(spec.v, subj) THEN <<"specification reading: AST differs">> ELSE <<>>)
           \o BackWhy("decoded", subj, o.back)
+          \* identical only under the comparison form: a decimal / ipaddr literal node came back as a constructor call
+          \o (IF o.back.ok /\ SameAst(PolicyFromWire(o.back.policy), subj) /\ ~SameAstStrict(PolicyFromWire(o.back.policy), subj)
+              THEN <<"*lit">> ELSE <<>>)
           \o (IF "cross" \in DOMAIN o
               THEN BackWhy("JSON -> text -> JSON", IF o.cross.ok THEN PolicyFromWire(o.cross.base) ELSE subj, o.cross) ELSE <<>>)
           \o (IF "az" \in DOMAIN o THEN AzWhy(ev, subj) ELSE <<>>)
@@ -88,12 +91,19 @@ Why(ev) == IF ev.op = "pjsonset" THEN SetWhy(ev) ELSE PJsonWhy(ev)
 SpecSaw(ev) == IF ev.op = "pjson" /\ "json" \in DOMAIN ev.obs /\ "subject" \in DOMAIN ev.obs
                THEN LET r == FromEst(ev.obs.json) IN IF r.ok THEN [ok |-> TRUE] ELSE [ok |-> FALSE] ELSE [ok |-> FALSE]
 
-Init == l = 1 /\ bad = <<>> /\ judged = 0
+Init == l = 1 /\ bad = <<>> /\ judged = 0 /\ litNoted = FALSE
 Next == /\ l <= Len(Trace)
         /\ \E raw \in {Why(Trace[l])} :
-             LET w == SelectSeq(raw, LAMBDA x : x # "+") IN
+             LET w0 == SelectSeq(raw, LAMBDA x : x # "+")
+                 hasLit == \E i \in DOMAIN w0 : w0[i] = "*lit"
+                 \* the literal-node deviation is reported once per trace (nearly every policy with a decimal shows it)
+                 w == SelectSeq(w0, LAMBDA x : x # "*lit")
+                      \o (IF hasLit /\ ~litNoted
+                          THEN <<"decoded: decimal / ipaddr literal nodes came back as constructor calls (the same policy under the comparison form only)">>
+                          ELSE <<>>) IN
              /\ bad' = IF w = <<>> THEN bad ELSE Note(bad, [event |-> l, why |-> w])
-             /\ judged' = judged + Len(raw) - Len(w)
+             /\ judged' = judged + Len(raw) - Len(w0)
+             /\ litNoted' = (litNoted \/ hasLit)
         /\ l' = l + 1
 Done == l = Len(Trace) + 1
 WriteOut ==
